@@ -241,8 +241,26 @@ impl TlDesc {
 
     /// Builds the real timeline through the public builder path, keyframes in the listed order.
     pub fn build(&self) -> PTimeline {
-        let timing = |b: mina::TimelineConfiguration<PKeyframeData>| {
-            b.duration_seconds(self.timing.cycle).delay_seconds(self.timing.delay).repeat(to_repeat(self.timing.repeat)).reverse(self.timing.reverse).default_easing(self.default_ez.to_mina())
+        // orders 4..7: as 0..3, but a setter is not called at all when its value is the documented
+        // default (1 s, no delay, no repeat, no reverse, linear)
+        let omit = (self.order / 4) % 2 == 1 && self.order % 4 != 3;
+        let timing = |mut b: mina::TimelineConfiguration<PKeyframeData>| {
+            if !(omit && self.timing.cycle == 1.0) {
+                b = b.duration_seconds(self.timing.cycle);
+            }
+            if !(omit && self.timing.delay == 0.0) {
+                b = b.delay_seconds(self.timing.delay);
+            }
+            if !(omit && self.timing.repeat == Rep::None) {
+                b = b.repeat(to_repeat(self.timing.repeat));
+            }
+            if !(omit && !self.timing.reverse) {
+                b = b.reverse(self.timing.reverse);
+            }
+            if !(omit && self.default_ez == Ez::Linear) {
+                b = b.default_easing(self.default_ez.to_mina());
+            }
+            b
         };
         let mut b = P::timeline();
         let n = self.kfs.len();
@@ -451,7 +469,7 @@ pub fn tl_strategy_with(timing: impl Strategy<Value = Timing>, max_kfs: usize) -
         kfs
     });
     let kfs = prop_oneof![16 => small, 3 => near, 1 => large];
-    (timing, ez_strategy(), kfs, 0u8..4).prop_map(|(timing, default_ez, kfs, order)| TlDesc { timing, default_ez, kfs, order }.sanitize())
+    (timing, ez_strategy(), kfs, 0u8..8).prop_map(|(timing, default_ez, kfs, order)| TlDesc { timing, default_ez, kfs, order }.sanitize())
 }
 
 pub fn tl_strategy() -> impl Strategy<Value = TlDesc> {
@@ -460,8 +478,8 @@ pub fn tl_strategy() -> impl Strategy<Value = TlDesc> {
 
 /// Timelines for animator checks: built-in easings without Back, distinct positions.
 pub fn tl_strategy_animator(timing: impl Strategy<Value = Timing>) -> impl Strategy<Value = TlDesc> {
-    (timing, ez_builtin_strategy(), prop::collection::vec(kf_strategy(ez_builtin_strategy()), 0..=5))
-        .prop_map(|(timing, default_ez, kfs)| TlDesc { timing, default_ez, kfs, order: 0 }.distinct_positions())
+    (timing, ez_builtin_strategy(), prop::collection::vec(kf_strategy(ez_builtin_strategy()), 0..=5), 0u8..8)
+        .prop_map(|(timing, default_ez, kfs, order)| TlDesc { timing, default_ez, kfs, order }.distinct_positions())
 }
 
 // ---------------------------------------------------------------------------------------------
